@@ -17,6 +17,9 @@ REPO = os.environ.get("TEAAL_REPO", "/repo")
 COQDIR = os.path.join(VERIF, "coq")
 GENDIR = os.path.join(COQDIR, "gen")
 NPROC = int(os.environ.get("VERIF_NPROC", "16"))
+# runs against a mutated tree (tools/run_seeded.py) redirect their evidence/replays so the committed evidence is untouched
+EVIDENCE_DIR = os.environ.get("VERIF_EVIDENCE_DIR") or os.path.join(VERIF, "evidence")
+REPLAY_DIR = os.environ.get("VERIF_REPLAY_DIR") or os.path.join(VERIF, "replays")
 
 
 def setup_repo_path():
@@ -261,7 +264,7 @@ class Ctx:
             self.known_hits[k["id"]][0] += 1
             return False
         self._nrep += 1
-        d = os.path.join(VERIF, "replays", self.pid)
+        d = os.path.join(REPLAY_DIR, self.pid)
         os.makedirs(d, exist_ok=True)
         path = os.path.join(d, "%s_%d_%d.json" % (self.tier, self.seed, self._nrep))
         with open(path, "w") as f:
@@ -298,8 +301,8 @@ class Ctx:
             "wall_s": round(time.time() - self.t0, 2),
             "violations": len(self.violations),
         }
-        os.makedirs(os.path.join(VERIF, "evidence"), exist_ok=True)
-        with open(os.path.join(VERIF, "evidence", self.pid + ".json"), "w") as f:
+        os.makedirs(EVIDENCE_DIR, exist_ok=True)
+        with open(os.path.join(EVIDENCE_DIR, self.pid + ".json"), "w") as f:
             json.dump(ev, f, indent=1, default=str)
         return 1 if self.violations else 0
 
